@@ -96,15 +96,19 @@ theorem storeNets_one (n : Node) : One n (storeNets n).1 := by
     · exact Or.inl hk
   · exact one_of_quiet (quiet_of_eq hkv hh)
 
-theorem purgeResum_quiet (n : Node) (idx : Nat) : Quiet n (purgeResum n idx).1 := by
-  have ⟨_, _, _, _, _, _, _, _, _, hst⟩ := purgeResum_spec n idx
-  rcases hst with ⟨hkv, hh⟩ | ⟨_, hkv, hh⟩
+theorem storeResum_quiet (n : Node) : Quiet n (storeResum n).1 := by
+  have ⟨_, _, _, hst⟩ := storeResum_spec n
+  rcases hst with ⟨_, hkv, hh, _⟩ | ⟨_, hkv, hh, _⟩
   · exact quiet_of_eq hkv hh
   · refine ⟨by rw [hkv]; exact same_of_fabs_nets rfl rfl, fun kv hk => ?_⟩
     rw [hh] at hk
     rcases List.mem_cons.mp hk with rfl | hk
     · exact Or.inr (same_of_fabs_nets rfl rfl)
     · exact Or.inl hk
+
+theorem purgeResum_quiet (n : Node) (idx : Nat) : Quiet n (purgeResum n idx).1 :=
+  quiet_trans (quiet_of_eq (n' := { n with resum := n.resum.filter (fun r => r.fab ≠ idx) }) rfl rfl)
+    (storeResum_quiet _)
 
 theorem expireArmed_kv (cfg : Cfg) (n : Node) (a : Armed) (exp : Option Nat) :
     (expireArmed cfg n a exp).1.kv = n.kv ∧ (expireArmed cfg n a exp).1.hist = n.hist := by
@@ -173,14 +177,40 @@ theorem write_one (n : Node) (f f' : Fabric) :
     rw [hst] at h'
     cases b <;> exact h'
 
+/-- `addNoc` (the command after the retry of a failed resumption-cache store) never touches the store -/
+theorem addNoc_store_untouched (cfg : Cfg) (n : Node) (sid : Nat) (mode : Mode) (ca fid node subj ser : Nat) :
+    (addNoc cfg n sid mode ca fid node subj ser).1.kv = n.kv ∧
+    (addNoc cfg n sid mode ca fid node subj ser).1.hist = n.hist := by
+  simp only [addNoc]
+  repeat' split
+  all_goals exact ⟨rfl, rfl⟩
+
+/-- AddNOC writes no fabric / network key: at most the resumption blob (the retry of a failed store) -/
+theorem sessOp_addnoc_quiet (cfg : Cfg) (n : Node) (sid s ca fid node subj ser : Nat) (mode : Mode) :
+    Quiet n (sessOp cfg n sid mode (.addnoc s ca fid node subj ser)).1 := by
+  simp only [sessOp]
+  rcases retryResum_cases n with hr | hr
+  · rw [hr]
+    have := addNoc_store_untouched cfg n sid mode ca fid node subj ser
+    exact quiet_of_eq this.1 this.2
+  · rw [hr]
+    have h1 := storeResum_quiet n
+    rcases hst : storeResum n with ⟨n1, b⟩
+    rw [hst] at h1
+    cases b with
+    | false => exact h1
+    | true =>
+      have := addNoc_store_untouched cfg n1 sid mode ca fid node subj ser
+      exact quiet_trans h1 (quiet_of_eq this.1 this.2)
+
 /-- the commands that never touch the store -/
 theorem sessOp_store_untouched (cfg : Cfg) (n : Node) (sid : Nat) (mode : Mode) (op : Op)
     (hop : (∃ s u, op = .csr s u) ∨ (∃ s c, op = .root s c) ∨
-           (∃ s c f nd a r, op = .addnoc s c f nd a r) ∨ (∃ s nd r, op = .updnoc s nd r) ∨
+           (∃ s nd r, op = .updnoc s nd r) ∨
            (∃ s v, op = .net s v) ∨ (∃ s v, op = .rmnet s v) ∨ (∃ s t, op = .arm s t ∧ t ≠ 0) ∨
            (∃ s v, op = .bcw s v) ∨ (∃ s, op = .openW s)) :
     (sessOp cfg n sid mode op).1.kv = n.kv ∧ (sessOp cfg n sid mode op).1.hist = n.hist := by
-  rcases hop with ⟨s, u, rfl⟩ | ⟨s, c, rfl⟩ | ⟨s, c, f, nd, a, r, rfl⟩ | ⟨s, nd, r, rfl⟩ | ⟨s, v, rfl⟩ | ⟨s, v, rfl⟩ |
+  rcases hop with ⟨s, u, rfl⟩ | ⟨s, c, rfl⟩ | ⟨s, nd, r, rfl⟩ | ⟨s, v, rfl⟩ | ⟨s, v, rfl⟩ |
     ⟨s, t, rfl, ht⟩ | ⟨s, v, rfl⟩ | ⟨s, rfl⟩
   all_goals simp only [sessOp]
   all_goals repeat' split
@@ -201,7 +231,7 @@ theorem sessOp_one (cfg : Cfg) (n : Node) (sid : Nat) (mode : Mode) (op : Op) (h
       rw [hr] at this
       cases e <;> exact one_of_quiet this
     · have := sessOp_store_untouched cfg n sid mode (.arm s secs)
-        (Or.inr (Or.inr (Or.inr (Or.inr (Or.inr (Or.inr (Or.inl ⟨s, secs, rfl, h0⟩)))))))
+        (Or.inr (Or.inr (Or.inr (Or.inr (Or.inr (Or.inl ⟨s, secs, rfl, h0⟩))))))
       exact one_of_quiet (quiet_of_eq this.1 this.2)
   | csr s upd =>
     have := sessOp_store_untouched cfg n sid mode (.csr s upd) (by simp)
@@ -210,8 +240,7 @@ theorem sessOp_one (cfg : Cfg) (n : Node) (sid : Nat) (mode : Mode) (op : Op) (h
     have := sessOp_store_untouched cfg n sid mode (.root s ca) (by simp)
     exact one_of_quiet (quiet_of_eq this.1 this.2)
   | addnoc s ca fid node subj ser =>
-    have := sessOp_store_untouched cfg n sid mode (.addnoc s ca fid node subj ser) (by simp)
-    exact one_of_quiet (quiet_of_eq this.1 this.2)
+    exact one_of_quiet (sessOp_addnoc_quiet cfg n sid s ca fid node subj ser mode)
   | updnoc s node ser =>
     have := sessOp_store_untouched cfg n sid mode (.updnoc s node ser) (by simp)
     exact one_of_quiet (quiet_of_eq this.1 this.2)
@@ -294,6 +323,128 @@ theorem sessOp_one (cfg : Cfg) (n : Node) (sid : Nat) (mode : Mode) (op : Op) (h
     | none => exact one_of_quiet (quiet_trans this (quiet_of_eq rfl rfl))
   | _ => exact one_of_quiet (quiet_refl n)
 
+/-- the undo of the first write of a failed CommissioningComplete: nothing, or one removal -/
+theorem undoAdded_hist (n : Node) (idx : Nat) :
+    ((undoAdded n idx).kv = n.kv ∧ (undoAdded n idx).hist = n.hist) ∨
+    ((undoAdded n idx).kv = n.kv.delFabric idx ∧ (undoAdded n idx).hist = n.kv.delFabric idx :: n.hist) := by
+  unfold undoAdded
+  split
+  · have ⟨_, _, _, hst⟩ := removeFabricKey_spec n idx
+    rcases hst with ⟨_, _, ⟨hkv, hh⟩ | ⟨hkv, hh⟩⟩ | ⟨_, hkv, hh⟩
+    · exact Or.inr ⟨hkv, hh⟩
+    · exact Or.inl ⟨hkv, hh⟩
+    · exact Or.inl ⟨hkv, hh⟩
+  · exact Or.inl ⟨rfl, rfl⟩
+
+theorem undoAdded_one (n : Node) (idx : Nat) : One n (undoAdded n idx) := by
+  rcases undoAdded_hist n idx with ⟨hkv, hh⟩ | ⟨hkv, hh⟩
+  · exact one_of_quiet (quiet_of_eq hkv hh)
+  · intro kv hk
+    rw [hh] at hk
+    rcases List.mem_cons.mp hk with rfl | hk
+    · exact Or.inr (Or.inr (by rw [hkv]; exact KV.Same.refl _))
+    · exact Or.inl hk
+
+/-! ### the undo of a half-done CommissioningComplete -/
+
+theorem kvTick_bad_failIn (n : Node) (h : (kvTick n).2 = true) : (kvTick n).1.failIn = 0 := by
+  unfold kvTick at h ⊢
+  split
+  · rename_i h0; simp [h0] at h
+  · split
+    · rfl
+    · rename_i h0 h1; simp [h0, h1] at h
+
+theorem storeNets_fail_failIn (n : Node) (h : (storeNets n).2 = false) : (storeNets n).1.failIn = 0 := by
+  have hb := kvTick_bad_failIn n
+  unfold storeNets at h ⊢
+  rcases ht : kvTick n with ⟨n1, bad⟩
+  rw [ht] at hb
+  simp only [ht] at h ⊢
+  cases bad with
+  | true => exact hb rfl
+  | false => simp at h
+
+theorem removeFabricKey_calm {n : Node} (idx : Nat) (h : n.failIn = 0) :
+    removeFabricKey n idx = (if n.kv.hasFabric idx then kvCommit n (n.kv.delFabric idx) else n, true) := by
+  have hk : kvTick n = (n, false) := by simp [kvTick, h]
+  simp only [removeFabricKey, hk]
+  by_cases hf : n.kv.hasFabric idx = true <;> simp [hf]
+
+/-- **The repaired half of `C08-complete-partial-commit` / `C11-complete-store-failure`**: a
+CommissioningComplete for a fabric ADDED under the fail-safe (it has no stored record) that is not
+acknowledged - whichever of its two writes fails - leaves the store, on the fabric records and the
+networks, exactly as it was: when the networks cannot be stored, the fabric record just written is
+removed again. (An injected fault hits one call, so the removal itself does not fail.) -/
+theorem failed_complete_of_added_fabric_undone (cfg : Cfg) (n : Node) (sid s : Nat) (mode : Mode) (a : Armed)
+    (hfs : n.fs = some a) (hadd : a.flags.addNoc = true) (hnone : kvF n.kv mode.fab = none)
+    (hfail : (sessOp cfg n sid mode (.complete s)).2 ≠ .ok) :
+    KV.Same (sessOp cfg n sid mode (.complete s)).1.kv n.kv := by
+  simp only [sessOp] at hfail ⊢
+  cases hca : checkArmed n mode with
+  | some e => exact KV.Same.refl _
+  | none =>
+    have hab : a.fab = mode.fab := by
+      unfold checkArmed at hca
+      rw [hfs] at hca
+      by_cases hh : a.fab = mode.fab
+      · exact hh
+      · simp [hh] at hca
+    rw [hca] at hfail
+    simp only [] at hfail ⊢
+    split
+    · exact KV.Same.refl _
+    · rename_i hcase
+      simp only [hcase, if_false] at hfail
+      cases hg : getFabric n mode.fab with
+      | none => exact KV.Same.refl _
+      | some f =>
+        have hidx := getFabric_idx hg
+        rw [hg] at hfail
+        simp only [] at hfail ⊢
+        have ⟨hfr1, hst1⟩ := storeFabric_spec n f
+        rcases hr1 : storeFabric n f with ⟨n1, b1⟩
+        rw [hr1] at hfr1 hst1 hfail
+        simp only at hfr1 hst1 hfail
+        rcases hst1 with ⟨hb1, hkv1, _⟩ | ⟨hb1, hkv1, _⟩
+        · subst hb1
+          simp only [] at hfail ⊢
+          have ⟨hfr2, hst2⟩ := storeNets_spec { n1 with managed := true }
+          have hfi := storeNets_fail_failIn { n1 with managed := true }
+          rcases hr2 : storeNets { n1 with managed := true } with ⟨n2, b2⟩
+          rw [hr2] at hfr2 hst2 hfail hfi
+          simp only at hfr2 hst2 hfail hfi
+          cases b2 with
+          | true => simp [ok] at hfail
+          | false =>
+            simp only []
+            rcases hst2 with ⟨hb, _⟩ | ⟨_, hkv2, _⟩
+            · cases hb
+            · have hkv2' : n2.kv = n.kv.putFabric f := by rw [hkv2]; exact hkv1
+              have hfs2 : n2.fs = some a := by rw [hfr2.fs]; exact hfr1.fs.trans hfs
+              have hadding : addingFabric { n2 with managed := n1.managed } f.idx = true := by
+                unfold addingFabric
+                simp only [hfs2, hab, hidx, hadd, beq_self_eq_true, Bool.and_self]
+              unfold undoAdded
+              have hfi' : ({ n2 with managed := n1.managed } : Node).failIn = 0 := hfi rfl
+              rw [if_pos hadding, removeFabricKey_calm f.idx hfi']
+              have hhas : ({ n2 with managed := n1.managed } : Node).kv.hasFabric f.idx = true := by
+                show n2.kv.hasFabric f.idx = true
+                rw [hkv2']
+                simp [KV.hasFabric, KV.putFabric]
+              rw [if_pos hhas]
+              refine ⟨fun i => ?_, ?_⟩
+              · show kvF (n2.kv.delFabric f.idx) i = kvF n.kv i
+                rw [kvF_delFabric, hkv2', kvF_putFabric]
+                by_cases hi : i = f.idx
+                · rw [if_pos hi, hi, hidx, hnone]
+                · rw [if_neg hi, if_neg hi]
+              · show (n2.kv.delFabric f.idx).nets = n.kv.nets
+                rw [hkv2']; rfl
+        · subst hb1
+          simp only []
+          rw [hkv1]; exact KV.Same.refl _
+
 /-- CommissioningComplete: the fabric, then the networks - the snapshot between the two writes is
 the store before the command with the fabric record written -/
 theorem sessOp_complete_snaps (cfg : Cfg) (n : Node) (sid s : Nat) (mode : Mode) :
@@ -349,7 +500,30 @@ theorem sessOp_complete_snaps (cfg : Cfg) (n : Node) (sid s : Nat) (mode : Mode)
                 rw [hkv1]; exact KV.Same.refl _
               · exact Or.inl hk'
           cases b2 with
-          | false => exact hcase _ rfl rfl
+          | false =>
+            simp only []
+            rcases undoAdded_hist { n2 with managed := n1.managed } f.idx with ⟨hk0, hh0⟩ | ⟨hk0, hh0⟩
+            · exact hcase _ hk0 hh0
+            · -- the networks were not stored, the fabric record is removed again
+              rcases hst2 with ⟨hb, _⟩ | ⟨_, hkv2, hh2⟩
+              · cases hb
+              · intro kv hk
+                rw [hh0] at hk
+                rcases List.mem_cons.mp hk with rfl | hk
+                · exact Or.inr (Or.inr (Or.inl (by rw [hk0]; exact KV.Same.refl _)))
+                · have hk' : kv ∈ n1.hist := by
+                    have : kv ∈ n2.hist := hk
+                    rw [hh2] at this; exact this
+                  rw [hh1] at hk'
+                  rcases List.mem_cons.mp hk' with rfl | hk'
+                  · refine Or.inr (Or.inr (Or.inr ⟨⟨f, KV.Same.refl _⟩, ?_⟩))
+                    rw [hh0]
+                    show n.hist.length + 2 ≤ (n2.hist).length + 1
+                    rw [hh2]
+                    show n.hist.length + 2 ≤ (n1.hist).length + 1
+                    rw [hh1]
+                    simp
+                  · exact Or.inl hk'
           | true => exact hcase _ rfl rfl
         · subst hb1
           simp only []
@@ -465,19 +639,11 @@ theorem step_snaps (cfg : Cfg) (n : Node) (op : Op) (hop : op ≠ .freset) : Ste
       rw [hr] at this
       cases e <;> exact one_of_quiet this
     | flush =>
-      have ⟨_, hkv, hh⟩ := kvTick_frame n
-      rcases ht : kvTick n with ⟨n1, bad⟩
-      rw [ht] at hkv hh
-      simp only at hkv hh
-      simp only [step, isSessOp, ht]
-      cases bad with
-      | true => simp only [if_true]; exact one_of_quiet (quiet_of_eq hkv hh)
-      | false =>
-        simp only [Bool.false_eq_true, if_false, ok, kvCommit]
-        refine one_of_quiet ⟨same_of_fabs_nets (by simp [hkv]) (by simp [hkv]), fun kv hk => ?_⟩
-        rcases List.mem_cons.mp hk with rfl | hk
-        · exact Or.inr (same_of_fabs_nets (by simp [hkv]) (by simp [hkv]))
-        · exact Or.inl (by rw [← hh]; exact hk)
+      simp only [step, isSessOp]
+      have h1 := storeResum_quiet n
+      rcases hst : storeResum n with ⟨n1, b⟩
+      rw [hst] at h1
+      cases b <;> exact one_of_quiet h1
     | restart =>
       simp only [step, isSessOp, ok]
       have ⟨h1, h2⟩ := restartFrom_snaps n n.kv n.hist
